@@ -187,7 +187,11 @@ def _dominating_guards(f, block):
         for lab, tgt in s['edges']:
             # edge (s.block -> tgt) dominates `block` if tgt dominates block and tgt's only pred is s.block
             if f.dominates(tgt, block) and f.pred(tgt) == [s['block']]:
-                out.append((s['cond'], lab, s['block'], tgt))
+                c = s['cond']
+                # `ensure!(c)` / `if !c`: a negated condition is the condition itself under the opposite label
+                while lab in (True, False) and strip(c)[0] == 'un' and strip(c)[1] == 'Not':
+                    c, lab = strip(c)[2], not lab
+                out.append((c, lab, s['block'], tgt))
     return out
 
 
